@@ -668,11 +668,18 @@ pub fn single_t(s: &SingleAsPathMatch) -> Term {
     Term::tag(k, v.into_iter().map(Term::nat).collect())
 }
 
+/// `raw` element: a prefix / neighbor string `IpNet::from_str` refuses (which one depends on the position)
+pub const BAD_NETS: [&str; 8] = ["10.0.0.0/33", "10.0.0.0", "2001:db8::/129", "x/8", "10.0.0.0/-1", "/", "10.0.0.0/8/8", "10.0.0.256/8"];
+
 pub fn set_config_of(kind: &str, name: String, elems: &[Term]) -> Option<DefinedSetConfig> {
     Some(match kind {
         "prefix" => {
             let mut prefixes = Vec::new();
-            for e in elems {
+            for (i, e) in elems.iter().enumerate() {
+                if e.as_atom() == Some("raw") {
+                    prefixes.push(PrefixConfig { ip_prefix: BAD_NETS[i % BAD_NETS.len()].to_string(), mask_length_min: 0, mask_length_max: 32 });
+                    continue;
+                }
                 let p = e.tagged("p")?;
                 if p.len() != 4 {
                     return None;
@@ -692,7 +699,11 @@ pub fn set_config_of(kind: &str, name: String, elems: &[Term]) -> Option<Defined
         }
         "neighbor" => {
             let mut neighbors = Vec::new();
-            for e in elems {
+            for (i, e) in elems.iter().enumerate() {
+                if e.as_atom() == Some("raw") {
+                    neighbors.push(BAD_NETS[i % BAD_NETS.len()].to_string());
+                    continue;
+                }
                 let p = e.tagged("n")?;
                 if p.len() != 2 {
                     return None;
